@@ -121,11 +121,13 @@ def run(ctx):
                       "answer True iff same type, same size/key set and pairwise-equal elements (a false 'equal' suppresses the invalidation of every expression reading that input)", floor=2)
     ctx.rule("R09.h", "watch delivery: reactive_ops._watch registers its callback with bind(<cb>, self._reactive, watch=True); inside the callback every path on which a function was given "
                       "hands the value to it (directly or through the async executor), and the callback reads no state of the shared .rx namespace object", floor=3)
+    ctx.rule("R09.j", "where model: reactive_ops.where interpreted abstractly; the callbacks it binds to the dependencies of each branch are called under six current conditions "
+                      "(True, False, a truthy non-bool, 0, '', None): the x-callback fires the Trigger iff the condition is truthy, the y-callback iff falsy; the ternary follows truthiness and is bound to (condition, Trigger value)", floor=1)
     ctx.rule("R09.i", "rx cache model: rx._resolve, the rx._obj property, _invalidate_current and _invalidate_obj interpreted abstractly on a three-node expression (root, op1, op2) under every "
                       "history of up to 3 (thorough: 4) steps of read leaf / read middle node / set the input to A, B or a bad value / set an operation argument to P, Q or a bad value, followed by a read: the read gives op2(op1(current input, current argument)), "
                       "raises for the bad input, and recovers", floor=1)
     ctx.not_decided += ["that .rx.value equals the plain-Python result after arbitrary read/update histories (cache coherence) -- not statically decidable here and NOT claimed",
-                        "the .rx helper namespace (pipe, where, and_, ...); the values rx.watch delivers (only the callback structure is decided, R09.h)"]
+                        "the .rx helper namespace other than where (pipe, and_, ...); the values rx.watch delivers (only the callback structure is decided, R09.h)"]
     from checks.shared import comparator_model
     comparator_model(ctx, "R09.g")
     _watch_delivery(ctx)
@@ -307,5 +309,7 @@ def run(ctx):
                                                    "_resolve does not store the evaluation error before re-raising / does not re-raise a stored error first")
 
     # model-level rule, run last
+    from checks import where_model
+    where_model.report(ctx, "R09.j")
     from checks import rx_model
     rx_model.report(ctx, "R09.i")
